@@ -133,6 +133,11 @@ def _threshold_chain():
     tr = Tr({"max_value": ("max_value", "Z")})
 
     def width(e):
+        if isinstance(e, ast.IfExp):                 # normalised spelling of an if / else that assigns one name
+            c, ct = tr.expr(e.test)
+            if ct != "bool":
+                raise Refuse("threshold test is not boolean")
+            return f"(if {c} then {width(e.body)} else {width(e.orelse)})"
         d = dotted(e)
         if d not in WIDTHS:
             raise Refuse(f"unknown dtype {d}")
